@@ -1025,8 +1025,14 @@ type c08Gated struct {
 	gate chan struct{}
 }
 
+// The listing waits until the consumer stands in the gap - for a while: an implementation whose
+// walk lists before any consumer runs (or does not go through fsloop at all) never gets there, the
+// schedule then cannot be forced (counted as "not reached") and the listing simply goes on.
 func (fs *c08Gated) ReadDir(p string) ([]os.FileInfo, error) {
-	<-fs.gate
+	select {
+	case <-fs.gate:
+	case <-time.After(3 * time.Second):
+	}
 	return fs.c08Inner.ReadDir(p)
 }
 
